@@ -259,3 +259,23 @@ def fmt_body(body, only_normal=True):
     nb = normal_blocks(body) if only_normal else range(len(body["blocks"]))
     hdr = "fn %s  [%s:%s]" % (body["path"], body["span"]["file"], body["span"]["line"])
     return hdr + "\n" + "\n".join(fmt_block(body, b) for b in sorted(nb))
+
+
+def trace_const(body, op, defs=None, depth=0):
+    """Follow copies / reborrows back to a constant operand; returns the const dict or None."""
+    if op.get("k") == "const":
+        return op
+    if op.get("k") not in ("copy", "move") or depth > 8:
+        return None
+    defs = defs if defs is not None else local_defs(body)
+    ds = defs.get(op["place"]["local"], [])
+    if len(ds) != 1 or ds[0][0] != "stmt":
+        return None
+    rv = ds[0][3]
+    if rv["k"] == "use":
+        return trace_const(body, rv["op"], defs, depth + 1)
+    if rv["k"] in ("ref", "rawptr"):
+        return trace_const(body, {"k": "copy", "place": {"local": rv["place"]["local"], "proj": []}}, defs, depth + 1)
+    if rv["k"] == "cast":
+        return trace_const(body, rv["op"], defs, depth + 1)
+    return None
